@@ -231,8 +231,8 @@ deriving DecidableEq, Repr
 def normInput (input : Bytes) : Bytes :=
   cleanB input ++ (if endsWithSlash input then [slashB] else [])
 
-/-- `run()` up to the task list; `none` = the command prints an error and exits 1 without touching a file -/
-def plan (pm : Nat → Bytes → Bool) (fs : Fs) (inv : Inv) : Option Plan :=
+/-- `run()` up to the task list, before the duplicate-destination check of `createTasks` -/
+def planCore (pm : Nat → Bytes → Bool) (fs : Fs) (inv : Inv) : Option Plan :=
   let dash : Bytes := [45]
   let (inputs, output) :=
     if inv.inputs == [dash] then (([] : List Bytes), inv.output)
@@ -275,6 +275,18 @@ def plan (pm : Nat → Bytes → Bool) (fs : Fs) (inv : Inv) : Option Plan :=
     if inv.bundle && ts.length > 1 then
       some { tasks := ts.take 1, bundleSrcs := ts.map (·.src), outDir := outDir, mimetype := mimetype }
     else some { tasks := ts, outDir := outDir, mimetype := mimetype }
+
+/-- two tasks write to the same file (`createTasks`: "… have the same destination …") -/
+def dupDst : List TaskP → Bool
+  | [] => false
+  | t :: r => (t.dst.isSome && r.any (fun u => decide (u.dst = t.dst))) || dupDst r
+
+/-- `run()` up to the task list; `none` = the command prints an error and exits 1 without touching a file.
+    Unless `--bundle` is given, two inputs with the same destination are an error (fix 33fb456). -/
+def plan (pm : Nat → Bytes → Bool) (fs : Fs) (inv : Inv) : Option Plan :=
+  match planCore pm fs inv with
+  | none => none
+  | some pl => if !inv.bundle && dupDst pl.tasks then none else some pl
 
 /-- the mimetype `minify(t)` works with: the given one, else the common inferred one; `none` = the task is skipped -/
 def taskMime (mimetype : Bytes) (sync : Bool) (srcs : List Bytes) : Option Bytes :=
